@@ -220,4 +220,113 @@ theorem vexM_rmi_formOk_bcst (c : Model.X86.Ctx) (ctx : Spec.X86.Ctx) (rule : Ru
   exact vex_rmi_mem_formOk ctx rule p _ _ pfx k0 f0 f2 _ _ _ _ _ hm64 hmode hk0 R f3 imm hf3 hib (by simp [hi]) hf0 hf2 AF.hpc D AF.hvsib (by simpa using AF.hbc) (fun _ => hbr) hal hp P h0 h1 hc
 
 
+/-! ### broadcast with the other address forms -/
+
+theorem emitVexEvexM_index_eqB (c : Model.X86.Ctx) (opcode reg vvvvv rb rx aaa : BitVec 32) (z : Bool) (size sh : Nat) (d imm : BitVec 64) (n : Nat) (seg : Nat) (a32 : Bool)
+    (bc : Nat) (hbc : bc ≠ 0)
+    (hm : c.mode64 = true) (hpe : c.preferEvex = false) (hk : c.extraId = aaa) (hvs : c.vsib = false) :
+    emitVexEvexM c opcode (zOpt z) (reg + (vvvvv <<< 7)) (memBaseIndex size rb rx sh d seg a32 bc) imm n =
+      (match vexEvexMPrefix c ((if c.vexFlag then xMbx opcode reg vvvvv rb rx aaa z ||| 0x100000#32 else xMbx opcode reg vvvvv rb rx aaa z ||| 0x100000#32 ||| 0x80000000#32) ||| zOpt z)
+          opcode (zOpt z) (memBaseIndex size rb rx sh d seg a32 bc) with
+       | .error e => .error e
+       | .ok v => emitModSib c (segmentPrefix seg ++ aoBytes a32 ++ v.1) (segmentPrefix seg).length v.2 (zOpt z) ((reg + (vvvvv <<< 7)) &&& 7#32) rb rx
+                    (rmInfoIdx a32) (memBaseIndex size rb rx sh d seg a32 bc) imm n false) := by
+  have hbc' : (bc != 0) = true := by simpa using hbc
+  unfold emitVexEvexM
+  cases z <;> cases a32
+  all_goals
+    simp only [memBaseIndex, xMbx, aoBytes, rmInfoIdx, zOpt, Bool.false_eq_true, ↓reduceIte, hbc']
+    simp only [rtLabel, hk, hpe, hvs, memInfo_gp64_gp64, memInfo_gp32_gp32, Model.X86.Ctx.aoMask, hm, oZMask, oER, oSAE, oVex, oVex3]
+    simp only [BitVec.ofNat_toNat, BitVec.setWidth_eq, BitVec.zero_and, BitVec.zero_or, BitVec.or_zero, bne_self_eq_false, Bool.false_eq_true, ↓reduceIte,
+      Bool.false_and, gt_iff_lt, Nat.lt_irrefl, Nat.not_lt_zero, BitVec.zero_shiftLeft, BitVec.and_zero, bind, Except.bind, Bool.not_false,
+      show (1 < 6) = True from by decide, show (1 < 5) = True from by decide, show (0x0F#32 &&& 0x80#32 != 0#32) = false from by decide,
+      show (0x8F#32 &&& 0x80#32 != 0#32) = true from by decide, List.nil_append, List.length_nil, List.append_nil,
+      show ((0:Nat) != 0) = false from by decide, show (1#32 <<< 20 : BitVec 32) = 0x100000#32 from by decide,
+      show (0x800000#32 &&& (0x800000#32 ||| 0x40000#32 ||| 0x80000#32) != 0#32) = true from by decide,
+      show (0x800000#32 &&& (0x40000#32 ||| 0x80000#32) != 0#32) = false from by decide,
+      show (0x800000#32 &&& 0x800000#32) = 0x800000#32 from by decide,
+      show (0x800000#32 &&& (0x800#32 ||| 0x400#32)) = 0#32 from by decide]
+    generalize vexEvexMPrefix c _ opcode _ _ = r
+    cases r <;> rfl
+
+/-- the broadcast address form `seg:[base + index * 2^sh + disp]{1to(2^bc)}` -/
+theorem addrFormB_index (c : Model.X86.Ctx) (ctx : Spec.X86.Ctx) (rb rx aaa : BitVec 32) (size sh : Nat) (d : BitVec 64) (seg : Nat) (a32 : Bool) (bc : Nat) (hbc : bc ≠ 0)
+    (hm : c.mode64 = true) (hpe : c.preferEvex = false) (hk : c.extraId = aaa) (ha : aaa < 8#32) (hvs : c.vsib = false)
+    (hu : c.bcstSize ≠ 0) (hs6 : bcstShift c.bcstSize ≤ 6#32)
+    (hm64 : ctx.mode64 = true) (hb : rb < 16#32) (hx : rx < 16#32) (hx4 : rx ≠ 4#32) (hsh : sh < 4) :
+    AddrFormB c ctx (memBaseIndex size rb rx sh d seg a32 bc) (memOpBaseIndex size rb rx sh d seg a32 bc) (segmentPrefix seg ++ aoBytes a32) (xbOf rb rx) aaa
+      (fun o7 s => idxMb o7 (memVariant (rb &&& 7#32) (d.truncate 32) s))
+      (fun _ _ => some (idxSib (BitVec.ofNat 32 sh) (rx &&& 7#32) (rb &&& 7#32)))
+      (fun _ s => memDs rb (d.truncate 32) s) := by
+  have AFv := addrForm_index c ctx rb rx aaa size sh d seg a32 hm hpe hk ha hvs hm64 hb hx hx4 hsh
+  obtain ⟨hpl, hpc, h67⟩ := segPfx_ok seg a32 (memOpBaseIndex size rb rx sh d seg a32 bc) rfl (by cases a32 <;> rfl)
+  have hxb : xbOf rb rx < 32#32 := AFv.hxb
+  refine ⟨hxb, ha, hpl, hpc, by cases a32 <;> rfl, hbc, hs6, AFv.shape, ?_, ?_⟩
+  · intro rule p o7 s ho hs6' F hN
+    have h3 : (xbOf rb rx).getLsbD 3 = rb.getLsbD 3 := by simp only [xbOf]; bv_decide
+    have h4 : (xbOf rb rx).getLsbD 4 = rx.getLsbD 3 := by simp only [xbOf]; bv_decide
+    rw [h3, h4] at F
+    exact idxParts_checkMem ctx rule p o7 rb rx s size sh d hm64 ho hb hx hx4 hsh hs6' seg a32 bc _ h67 F hN
+  · intro opcode reg vvvvv z imm n hr hv hxop hLL
+    have hoff : (memBaseIndex size rb rx sh d seg a32 bc).offLo32 = d.truncate 32 := rfl
+    have hshift : (memBaseIndex size rb rx sh d seg a32 bc).shift = sh := rfl
+    rw [emitVexEvexM_index_eqB c opcode reg vvvvv rb rx aaa z size sh d imm n seg a32 bc hbc hm hpe hk hvs, xMbx_eq_xR opcode reg vvvvv rb rx aaa z hb hx,
+      vexEvexMPrefix_decidedB c opcode reg vvvvv (xbOf rb rx) aaa z _ hr hv hxb ha hxop hu hLL]
+    simp only []
+    rw [emitModSib_index_parts c _ _ _ _ _ rb rx (rmInfoIdx a32) _ imm n (by cases a32 <;> decide) (by cases a32 <;> decide) (by cases a32 <;> decide) hx4,
+      hoff, hshift, cdShift_bcst _ _ (by bv_decide)]
+    simp [memDs]
+
+theorem emitVexEvexM_rip_eqB (c : Model.X86.Ctx) (opcode reg vvvvv aaa : BitVec 32) (z : Bool) (size : Nat) (d imm : BitVec 64) (n : Nat) (seg : Nat)
+    (bc : Nat) (hbc : bc ≠ 0)
+    (hm : c.mode64 = true) (hpe : c.preferEvex = false) (hk : c.extraId = aaa) (hvs : c.vsib = false) :
+    emitVexEvexM c opcode (zOpt z) (reg + (vvvvv <<< 7)) (memRip size d seg bc) imm n =
+      (match vexEvexMPrefix c ((if c.vexFlag then xMbK opcode reg vvvvv 0#32 aaa z ||| 0x100000#32 else xMbK opcode reg vvvvv 0#32 aaa z ||| 0x100000#32 ||| 0x80000000#32) ||| zOpt z)
+          opcode (zOpt z) (memRip size d seg bc) with
+       | .error e => .error e
+       | .ok v => emitModSib c (segmentPrefix seg ++ aoBytes false ++ v.1) (segmentPrefix seg).length v.2 (zOpt z) ((reg + (vvvvv <<< 7)) &&& 7#32) 0#32 0#32 0x2C#32
+                    (memRip size d seg bc) imm n false) := by
+  have hbc' : (bc != 0) = true := by simpa using hbc
+  unfold emitVexEvexM
+  cases z
+  all_goals
+    dsimp only [memRip, xMbK, aoBytes, zOpt]
+    simp only [hk, hpe, hvs, memInfo_rip, Model.X86.Ctx.aoMask, hm, hbc']
+    simp only [rtLabel, oZMask, oER, oSAE, oVex, oVex3]
+    simp only [BitVec.ofNat_toNat, BitVec.setWidth_eq, BitVec.zero_and, BitVec.zero_or, BitVec.or_zero, bne_self_eq_false, Bool.false_eq_true, ↓reduceIte,
+      Bool.false_and, gt_iff_lt, Nat.lt_irrefl, Nat.not_lt_zero, BitVec.zero_shiftLeft, BitVec.and_zero, bind, Except.bind, Bool.not_false,
+      show (1 < 31) = True from by decide, show (0x2C#32 &&& 0x80#32 != 0#32) = false from by decide, List.nil_append, List.length_nil, List.append_nil,
+      show ((0:Nat) != 0) = false from by decide, BitVec.ofNat_eq_ofNat, show (1#32 <<< 20 : BitVec 32) = 0x100000#32 from by decide,
+      show (0x800000#32 &&& (0x800000#32 ||| 0x40000#32 ||| 0x80000#32) != 0#32) = true from by decide,
+      show (0x800000#32 &&& (0x40000#32 ||| 0x80000#32) != 0#32) = false from by decide,
+      show (0x800000#32 &&& 0x800000#32) = 0x800000#32 from by decide,
+      show (0x800000#32 &&& (0x800#32 ||| 0x400#32)) = 0#32 from by decide]
+    generalize vexEvexMPrefix c _ opcode _ _ = r
+    cases r <;> rfl
+
+/-- the broadcast address form `seg:[rip + disp32]{1to(2^bc)}` -/
+theorem addrFormB_rip (c : Model.X86.Ctx) (ctx : Spec.X86.Ctx) (aaa : BitVec 32) (size : Nat) (d : BitVec 64) (seg : Nat) (bc : Nat) (hbc : bc ≠ 0)
+    (hm : c.mode64 = true) (hpe : c.preferEvex = false) (hk : c.extraId = aaa) (ha : aaa < 8#32) (hvs : c.vsib = false)
+    (hu : c.bcstSize ≠ 0) (hs6 : bcstShift c.bcstSize ≤ 6#32) (hm64 : ctx.mode64 = true) :
+    AddrFormB c ctx (memRip size d seg bc) (memOpRip size d seg bc) (segmentPrefix seg ++ aoBytes false) 0#32 aaa
+      (fun o7 _ => ripMb o7) (fun _ _ => none) (fun _ _ => le32 (d.truncate 32)) := by
+  have AFv := addrForm_rip c ctx aaa size d seg hm hpe hk ha hvs hm64
+  obtain ⟨hpl, hpc, h67⟩ := segPfx_ok seg false (memOpRip size d seg bc) rfl (by simp [wantedAddrSize, memOpRip])
+  refine ⟨by decide, ha, hpl, hpc, rfl, hbc, hs6, AFv.shape, ?_, ?_⟩
+  · intro rule p o7 s ho hs6' F hN
+    obtain ⟨hpm, hps, hpd, hpv, hpp, hpa, hpB, hpX⟩ := F
+    obtain ⟨f1, f2, f3⟩ := ripMb_factsBV o7 ho
+    refine checkMem_rip ctx rule p (memOpRip size d seg bc) _ hm64 (by rw [hpp]; exact h67) hpa hpm f1 f2 rfl rfl hps (by rw [hpd]; rfl) ?_
+    rw [hpv, leNat_le32]
+    simp [memOpRip, BitVec.toNat_setWidth]
+  · intro opcode reg vvvvv z imm n hr hv hxop hLL
+    have hoff : (memRip size d seg bc).offLo32 = d.truncate 32 := rfl
+    have hxe : xMbK opcode reg vvvvv 0#32 aaa z = xR opcode 0#32 reg vvvvv 0#32 aaa := by
+      cases z <;> simp only [xMbK, xR, zOpt, oZMask, extractLLMMMMM, kLL_Mask, kMM_Mask, oEvex, Bool.false_eq_true, ↓reduceIte] <;> bv_decide
+    rw [emitVexEvexM_rip_eqB c opcode reg vvvvv aaa z size d imm n seg bc hbc hm hpe hk hvs, hxe,
+      vexEvexMPrefix_decidedB c opcode reg vvvvv 0#32 aaa z _ hr hv (by decide) ha hxop hu hLL]
+    simp only []
+    rw [emitModSib_rip_parts c _ _ _ _ _ 0#32 0#32 _ imm n hm, hoff]
+    simp
+
 end AsmjitVerif.Props.C01
